@@ -57,6 +57,200 @@ var hibDir string
 const configHibernationDistance = "Pipeline.HibernationDistance"
 
 // ---------------------------------------------------------------------------------------------
+// The plan that Run really follows.  prepareRunPlan iterates over Go maps (the parents of a merge, the
+// garbage collector's ties), so a second call of the planner may order the actions differently from the
+// call inside Pipeline.Run.  A recorder item deployed next to the analysis logs what happens to it
+// (Consume, Fork, Merge, Hibernate, Boot, each with the identity of the instance); the plan is rebuilt from
+// that log with the numbering rule of generatePlan (branch indices are handed out in plan order).
+
+const recorderKey = "verif_c01_recorder"
+
+type recEvent struct {
+	kind   byte // C F M H B
+	inst   int
+	commit *object.Commit
+	others []int // F: the new instances, M: the other merged instances
+}
+
+type recLog struct {
+	next   int
+	events []recEvent
+}
+
+type recorder struct {
+	log *recLog
+	id  int
+}
+
+func (r *recorder) Name() string                                             { return "VerifC01Recorder" }
+func (r *recorder) Provides() []string                                       { return []string{recorderKey} }
+func (r *recorder) Requires() []string                                       { return []string{} }
+func (r *recorder) ListConfigurationOptions() []hercules.ConfigurationOption { return nil }
+func (r *recorder) Configure(map[string]interface{}) error                   { return nil }
+func (r *recorder) Initialize(*git.Repository) error                         { return nil }
+
+func (r *recorder) Consume(deps map[string]interface{}) (map[string]interface{}, error) {
+	c, _ := deps[hercules.DependencyCommit].(*object.Commit)
+	r.log.events = append(r.log.events, recEvent{kind: 'C', inst: r.id, commit: c})
+	return map[string]interface{}{recorderKey: r.id}, nil
+}
+
+func (r *recorder) Fork(n int) []hercules.PipelineItem {
+	res := make([]hercules.PipelineItem, n)
+	ev := recEvent{kind: 'F', inst: r.id}
+	for i := range res {
+		r.log.next++
+		res[i] = &recorder{log: r.log, id: r.log.next}
+		ev.others = append(ev.others, r.log.next)
+	}
+	r.log.events = append(r.log.events, ev)
+	return res
+}
+
+func (r *recorder) Merge(branches []hercules.PipelineItem) {
+	ev := recEvent{kind: 'M', inst: r.id}
+	for _, b := range branches {
+		ev.others = append(ev.others, b.(*recorder).id)
+	}
+	r.log.events = append(r.log.events, ev)
+}
+
+func (r *recorder) Hibernate() error {
+	r.log.events = append(r.log.events, recEvent{kind: 'H', inst: r.id})
+	return nil
+}
+
+func (r *recorder) Boot() error {
+	r.log.events = append(r.log.events, recEvent{kind: 'B', inst: r.id})
+	return nil
+}
+
+func actionKey(a verifapi.VerifAction, sortItems bool) string {
+	items := append([]int{}, a.Items...)
+	if sortItems {
+		sort.Ints(items)
+	}
+	h := ""
+	if a.Action == verifapi.ActionCommit && a.Commit != nil {
+		h = a.Commit.Hash.String()
+	}
+	return fmt.Sprint(a.Action, h, items)
+}
+
+// realPlan rebuilds the executed plan from the recorder's log; problem is "" when the rebuilt plan agrees
+// with the observed hibernate/boot calls and is a reordering of what the planner returns when asked again.
+func realPlan(lg *recLog, commits []*object.Commit, hib int) (plan []verifapi.VerifAction, problem string) {
+	if len(lg.events) == 0 || lg.events[0].kind != 'F' || lg.events[0].inst != 0 || len(lg.events[0].others) != 1 {
+		return nil, "log"
+	}
+	rootClone := lg.events[0].others[0]
+	branch := map[int]int{0: verifapi.RootBranchIndex}
+	counter := verifapi.RootBranchIndex + 1
+	var p0 []verifapi.VerifAction
+	p0 = append(p0, verifapi.VerifAction{Action: verifapi.ActionEmerge, Items: []int{verifapi.RootBranchIndex}})
+	type hbGroup struct {
+		action int
+		items  []int
+	}
+	var seen []hbGroup
+	lastHB := byte(0)
+	bad := false
+	get := func(inst int) int {
+		b, ok := branch[inst]
+		if !ok {
+			bad = true
+		}
+		return b
+	}
+	for _, ev := range lg.events[1:] {
+		switch ev.kind {
+		case 'C':
+			p0 = append(p0, verifapi.VerifAction{Action: verifapi.ActionCommit, Commit: ev.commit, Items: []int{get(ev.inst)}})
+		case 'F':
+			if ev.inst == rootClone {
+				if len(ev.others) != 1 {
+					bad = true
+					break
+				}
+				branch[ev.others[0]] = counter
+				p0 = append(p0, verifapi.VerifAction{Action: verifapi.ActionEmerge, Items: []int{counter}})
+				counter++
+				break
+			}
+			items := []int{get(ev.inst)}
+			for _, o := range ev.others {
+				branch[o] = counter
+				items = append(items, counter)
+				counter++
+			}
+			p0 = append(p0, verifapi.VerifAction{Action: verifapi.ActionFork, Items: items})
+		case 'M':
+			items := []int{get(ev.inst)}
+			for _, o := range ev.others {
+				items = append(items, get(o))
+			}
+			p0 = append(p0, verifapi.VerifAction{Action: verifapi.ActionMerge, Items: items})
+		case 'H', 'B':
+			act := verifapi.ActionHibernate
+			if ev.kind == 'B' {
+				act = verifapi.ActionBoot
+			}
+			if lastHB == ev.kind {
+				seen[len(seen)-1].items = append(seen[len(seen)-1].items, get(ev.inst))
+			} else {
+				seen = append(seen, hbGroup{act, []int{get(ev.inst)}})
+			}
+		}
+		lastHB = 0
+		if ev.kind == 'H' || ev.kind == 'B' {
+			lastHB = ev.kind
+		}
+	}
+	if bad {
+		return nil, "log"
+	}
+	plan = verifapi.CollectGarbage(p0)
+	if hib > 0 {
+		plan = verifapi.InsertHibernateBoot(plan, hib)
+	}
+	k := 0
+	for _, a := range plan {
+		if a.Action != verifapi.ActionHibernate && a.Action != verifapi.ActionBoot {
+			continue
+		}
+		if k >= len(seen) || seen[k].action != a.Action || fmt.Sprint(seen[k].items) != fmt.Sprint(a.Items) {
+			return plan, "hb"
+		}
+		k++
+	}
+	if k != len(seen) {
+		return plan, "hb"
+	}
+	// a fresh run of the planner must give the same actions up to the order (hibernate/boot excluded:
+	// where they are inserted depends on the order)
+	cnt := map[string]int{}
+	isHB := func(a verifapi.VerifAction) bool {
+		return a.Action == verifapi.ActionHibernate || a.Action == verifapi.ActionBoot
+	}
+	for _, a := range verifapi.PrepareRunPlan(commits, hib) {
+		if !isHB(a) {
+			cnt[actionKey(a, true)]++
+		}
+	}
+	for _, a := range plan {
+		if !isHB(a) {
+			cnt[actionKey(a, true)]--
+		}
+	}
+	for _, v := range cnt {
+		if v != 0 {
+			return plan, "sample"
+		}
+	}
+	return plan, ""
+}
+
+// ---------------------------------------------------------------------------------------------
 // restriction to a subset of the commits
 
 func restrict(h *synth.Hist, keep []int) *synth.Hist {
@@ -288,6 +482,8 @@ func runPipeline(in *input, repo *git.Repository, commits []*object.Commit) (obs
 	p := hercules.NewPipeline(repo)
 	b := &leaves.BurndownAnalysis{}
 	p.DeployItem(b)
+	lg := &recLog{}
+	p.DeployItem(&recorder{log: lg})
 	facts := map[string]interface{}{
 		hercules.ConfigLogger:            silent{},
 		hercules.ConfigPipelineCommits:   commits,
@@ -314,7 +510,7 @@ func runPipeline(in *input, repo *git.Repository, commits []*object.Commit) (obs
 		return T("error", A(errorClass(err.Error())))
 	}
 	res := out[b].(leaves.BurndownResult)
-	plan := verifapi.PrepareRunPlan(commits, in.hib)
+	plan, planProblem := realPlan(lg, commits, in.hib)
 
 	var fhist []Sx
 	{
@@ -404,6 +600,9 @@ func runPipeline(in *input, repo *git.Repository, commits []*object.Commit) (obs
 		T("pmatrix", pmatrix...),
 		T("sparse", T("gh", sparse(leaves.VerifC01Global(b))...), T("fh", sfh...), T("ph", sph...), T("mx", smx...)),
 		T("final", final...),
+	}
+	if planProblem != "" {
+		ok = append(ok, T("planproblem", A(planProblem)))
 	}
 	return T("ok", ok...)
 }
@@ -657,6 +856,13 @@ func fieldInt(cs Sx, name string, def int) int {
 	return def
 }
 
+// fail reports a malformed replay file.
+func fail(msg string) {
+	fmt.Fprintln(os.Stderr, msg)
+	os.RemoveAll(hibDir)
+	os.Exit(2)
+}
+
 func replay(c *Config) {
 	for _, cs := range c.ReplayCases() {
 		in := &input{kind: "replay", hibmode: "none"}
@@ -680,12 +886,16 @@ func replay(c *Config) {
 			in.lin = synth.LinearFromSx(f)
 			n = len(in.lin)
 		} else {
-			fmt.Fprintln(os.Stderr, "replay line without hist/linear")
-			os.Exit(2)
+			fail("replay line without hist/linear")
 		}
 		if f, ok := cs.Field("keep"); ok {
 			in.keep = ints(f)
 			sort.Ints(in.keep)
+			for i, k := range in.keep {
+				if k < 0 || k >= n || (i > 0 && in.keep[i-1] == k) {
+					fail(fmt.Sprint("replay line with a bad keep index: ", k))
+				}
+			}
 		} else {
 			in.keep = allIdx(n)
 		}
